@@ -60,7 +60,8 @@ def features(lines):
 
 
 def analyse(ctx, c, m, i, stats, report=True):
-    """compare one case; returns (diverged?, impl monitor failure or None, is_known_uaf)"""
+    """compare one case; returns (divergence or None, impl monitor failure or None, is_known_uaf); the detail of a
+    trace-predicate failure is left in stats['detail']"""
     if m is None or i is None:
         return ({"index": -1, "model": "<no output>" if m is None else "ok", "impl": "<no output>" if i is None else "ok", "prefix": []}, None, False)
     nu = fc_util.split_model_uaf(m)
@@ -76,7 +77,8 @@ def analyse(ctx, c, m, i, stats, report=True):
     else:
         e = fc_util.fc_monitor(i["lines"])
         if e and i["end"] == "finished":
-            fail = "flat-combining trace predicate violated on the real code: " + e
+            fail = "flat-combining trace predicate violated on the real code: " + e[0]
+            stats["detail"] = e[1]
     known = (fail == "uaf" and d is None and nu > 0)
     if fail == "uaf":
         fail = WHAT_UAF + " (poisoned-record monitor: %d accesses after free)" % mon.get("uaf", 0)
@@ -101,9 +103,9 @@ def run(ctx):
                 cases.append(json.load(open(os.path.join(cdir, f))))
     ncorpus = len(cases)
     if not ctx.replay:
-        cases += gen_cases(ctx, 12000 if ctx.thorough() else 2500)
+        cases += gen_cases(ctx, 12000 if ctx.thorough() else 2000)
 
-    rc1, mlog, rc2, ilog, raw = conc_check.run_both(ctx, model, impl, cases, timeout=1200)
+    rc1, mlog, rc2, ilog, raw = fc_util.run_both_par(ctx, model, impl, cases, timeout=1200)
     stats = {}
     shapes = set(); nontrivial = set(); feat_hist = {}; kind_hist = {}; steps = 0
     diverged = 0; first_div = None; concrete = 0; known_uaf = 0
@@ -127,7 +129,7 @@ def run(ctx):
             continue
         if fail:
             concrete += 1
-            ctx.violation(fail, {"case": c, "impl_log": i["lines"], "monitor": i["extra"], "first_divergence_from_model": d})
+            ctx.violation(fail, {"case": c, "impl_log": i["lines"], "monitor": i["extra"], "detail": stats.get("detail"), "first_divergence_from_model": d})
         if d is not None:
             diverged += 1
             if first_div is None:
@@ -136,25 +138,25 @@ def run(ctx):
     if first_div is not None and concrete == 0 and not ctx.replay:
         # the correspondence broke and no monitor fired on these cases: search an enlarged seed set with the monitors
         found = False
-        for rnd in range(3):
-            more = gen_cases(ctx, 6000, prefix="s%d_" % rnd)
-            _, ml2, _, il2, _ = conc_check.run_both(ctx, model, impl, more, tag="search", timeout=1200)
+        for rnd in range(2):
+            more = gen_cases(ctx, 3000, prefix="s%d_" % rnd)
+            _, ml2, _, il2, _ = fc_util.run_both_par(ctx, model, impl, more, tag="search", timeout=1200)
             for c2 in more:
                 m2 = ml2.get(c2["id"]); i2 = il2.get(c2["id"])
                 d2, fail2, known2 = analyse(ctx, c2, m2, i2, stats)
                 if fail2 and not known2:
                     def fails(vs):
-                        _, ml3, _, il3, _ = conc_check.run_both(ctx, model, impl, vs, tag="min", timeout=600)
+                        _, ml3, _, il3, _ = fc_util.run_both_par(ctx, model, impl, vs, tag="min", timeout=600)
                         out = []
                         for v in vs:
                             d3, f3, k3 = analyse(ctx, v, ml3.get(v["id"]), il3.get(v["id"]), stats)
                             out.append(bool(f3) and not k3)
                         return out
                     cmin = fc_util.minimise(c2, fails)
-                    _, ml4, _, il4, _ = conc_check.run_both(ctx, model, impl, [cmin], tag="min", timeout=600)
+                    _, ml4, _, il4, _ = fc_util.run_both_par(ctx, model, impl, [cmin], tag="min", timeout=600)
                     d4, f4, k4 = analyse(ctx, cmin, ml4.get(cmin["id"]), il4.get(cmin["id"]), stats)
                     ctx.violation(f4 or fail2, {"case": cmin, "impl_log": il4[cmin["id"]]["lines"], "monitor": il4[cmin["id"]]["extra"],
-                                                "first_divergence_from_model": d4, "unminimised_case": c2})
+                                                "detail": stats.get("detail"), "first_divergence_from_model": d4, "unminimised_case": c2})
                     found = True
                     break
             if found:
@@ -178,7 +180,7 @@ def run(ctx):
                 # which case: the first one without an 'endcase'
                 culprit = next((c for c in chunk if c["id"] not in il or il[c["id"]]["end"] is None), chunk[-1])
                 # the model decides whether this is the known free-while-linked race
-                _, ml, _, _, _ = conc_check.run_both(ctx, model, impl, [culprit], tag="asan1")
+                _, ml, _, _, _ = fc_util.run_both_par(ctx, model, impl, [culprit], tag="asan1")
                 mm = ml.get(culprit["id"])
                 if mm is not None and fc_util.split_model_uaf(mm) > 0:
                     known += 1
